@@ -30,6 +30,7 @@ def run(prop, tier, seed, replay=None):
             cases = [doc['case']] if 'case' in doc else doc['cases']
         else:
             seen = set()
+            todo = []
             for b in BOUNDS[tier]:
                 r = core.tlc(w, 'MC_Nav', CFG % b, coverage=True, timeout=3000)
                 core.tlc_ok(r, 'MC_Nav %s' % b)
@@ -43,9 +44,8 @@ def run(prop, tier, seed, replay=None):
                     seen.add(key)
                     for p in range(nperm):
                         cid = 'N-%06d-%d' % (len(seen), p)
-                        cases.append(fam_nav.record_case(cid, c['tree'], mods,
-                                                         seed * 1000003 + len(seen) * 7 + p,
-                                                         shuffle=(p > 0)))
+                        todo.append((cid, c['tree'], None, seed * 1000003 + len(seen) * 7 + p, p > 0))
+            cases.extend(core.pmap(fam_nav.record_case, todo))
             rep.exhaustive = True
             rnd = random.Random(seed)
             nrand = 300 if tier == 'quick' else 3000
